@@ -90,6 +90,12 @@ def _short_read_files(draw):
     return dict(fs, short_reads=draw(st.integers(1, 24)))
 
 
+def _wide_file():
+    # hundreds of channels in a few groups, two or three short segments
+    return S.file_spec(min_segments=1, max_segments=3, min_channels=120, max_channels=400, max_groups=12, max_n=2, max_chunks=2,
+                       names='wide', props=False, pad=False, nodata_entries=False, values='unique', str_max=3)
+
+
 def _compressed():
     from props.C02 import history
     return history(max_segments=6, max_channels=4)
@@ -102,6 +108,7 @@ def jobs(tier):
             Job('short_read_streams', 'hyp', _short_read_files, n=1000),
             Job('extreme_ts', 'hyp', _extreme_ts, n=500),
             Job('long_files', 'hyp', _long_file, n=48),
+            Job('wide_files', 'hyp', _wide_file, n=32, note='120-400 channels in up to 12 groups'),
             Job('compressed_encodings', 'hyp', _compressed, n=1500,
                 note='C02 histories in a randomly chosen physical encoding (inherited indexes, metadata-less segments)'),
         ]
@@ -111,5 +118,6 @@ def jobs(tier):
         Job('extreme_ts', 'hyp', _extreme_ts, n=20000),
         Job('big_files', 'hyp', lambda: S.file_spec(max_segments=12, max_n=300, max_chunks=4, str_max=12), n=40000),
         Job('long_files', 'hyp', _long_file, n=2000),
+        Job('wide_files', 'hyp', _wide_file, n=1000),
         Job('compressed_encodings', 'hyp', _compressed, n=40000),
     ]
